@@ -8,13 +8,15 @@ Ltac Zify.zify_post_hook ::= Z.to_euclidean_division_equations.
 
 Definition fh_ok (t : trx) : Prop := forall h, x_fh t = Some h -> 0 <= fh_hsn h <= 63 /\ fh_ma h <> [].
 Definition q_ok (t : trx) : Prop := Forall (fun m => 0 <= oz (t_fn m)) (x_q t).
-Definition wf_trx (t : trx) : Prop := sim_ok (x_sim t) /\ fh_ok t /\ q_ok t.
+(* the artificial TRXC delay a FAKE_TRXC_DELAY history can leave behind is one time.sleep() takes (fake_trx.py refuses longer ones) *)
+Definition dl_ok (t : trx) : Prop := s_delay (x_sim t) <= 9223372036854.
+Definition wf_trx (t : trx) : Prop := sim_ok (x_sim t) /\ fh_ok t /\ q_ok t /\ dl_ok t.
 Definition wf_world (w : world) : Prop := Forall wf_trx (w_trx w).
 
 Lemma sim0_ok : sim_ok sim0.
 Proof. unfold sim_ok, sim0. cbn. lia. Qed.
 Lemma trx0_wf c : wf_trx (trx0 c).
-Proof. split; [exact sim0_ok|]. split; [intros h H; discriminate|constructor]. Qed.
+Proof. split; [exact sim0_ok|]. split; [intros h H; discriminate|]. split; [constructor|unfold dl_ok; cbn; lia]. Qed.
 
 Lemma upd_Forall {A} (P : A -> Prop) f : forall l i, Forall P l -> (forall x, P x -> P (f x)) -> Forall P (upd l i f).
 Proof.
@@ -46,6 +48,18 @@ Proof.
   end; cbn [fst]; try exact Hs; apply sim_set_ok; lia.
 Qed.
 
+Lemma fake_handler_delay s req : s_delay s <= 9223372036854 -> s_delay (fst (fake_handler s req)) <= 9223372036854.
+Proof.
+  intros Hs. unfold fake_handler.
+  repeat match goal with
+  | |- context [if verb_is ?r ?v ?n then _ else _] => destruct (verb_is r v n)
+  | |- context [match arg ?r ?i with _ => _ end] => destruct (arg r i)
+  | |- context [if ?a <? ?b then _ else _] => destruct (a <? b) eqn:?
+  | |- context [if ?a <=? ?b then _ else _] => destruct (a <=? b) eqn:?
+  end; cbn [fst sim_set s_delay]; try exact Hs.
+  unfold trxc_delay_ms_max in *. lia.
+Qed.
+
 Lemma fake_handler_no_crash s req : snd (fake_handler s req) <> Some CCrash.
 Proof.
   unfold fake_handler.
@@ -58,14 +72,14 @@ Proof.
 Qed.
 
 (* ---- per-transceiver setters ---- *)
-Lemma wf_set_sim t s : wf_trx t -> sim_ok s -> wf_trx (set_sim t s).
-Proof. intros [_ [H2 H3]] Hs. split; [exact Hs|]. split; [exact H2|exact H3]. Qed.
+Lemma wf_set_sim t s : wf_trx t -> sim_ok s -> s_delay s <= 9223372036854 -> wf_trx (set_sim t s).
+Proof. intros [_ [H2 [H3 _]]] Hs Hd. split; [exact Hs|]. split; [exact H2|split; [exact H3|exact Hd]]. Qed.
 Lemma wf_set_rx t f : wf_trx t -> wf_trx (set_rx t f).  Proof. intros [H1 [H2 H3]]. split; [exact H1|split; [exact H2|exact H3]]. Qed.
 Lemma wf_set_tx t f : wf_trx t -> wf_trx (set_tx t f).  Proof. intros [H1 [H2 H3]]. split; [exact H1|split; [exact H2|exact H3]]. Qed.
 Lemma wf_set_ver t v : wf_trx t -> wf_trx (set_ver t v). Proof. intros [H1 [H2 H3]]. split; [exact H1|split; [exact H2|exact H3]]. Qed.
 Lemma wf_set_run t b : wf_trx t -> wf_trx (set_run t b). Proof. intros [H1 [H2 H3]]. split; [exact H1|split; [exact H2|exact H3]]. Qed.
 Lemma wf_set_q t q : wf_trx t -> Forall (fun m => 0 <= oz (t_fn m)) q -> wf_trx (set_q t q).
-Proof. intros [H1 [H2 _]] Hq. split; [exact H1|split; [exact H2|exact Hq]]. Qed.
+Proof. intros [H1 [H2 [_ H4]]] Hq. split; [exact H1|split; [exact H2|split; [exact Hq|exact H4]]]. Qed.
 Lemma wf_set_fh_none t : wf_trx t -> wf_trx (set_fh t None).
 Proof. intros [H1 [_ H3]]. split; [exact H1|split; [intros h H; discriminate|exact H3]]. Qed.
 Lemma wf_set_fh t h : wf_trx t -> 0 <= fh_hsn h <= 63 -> fh_ma h <> [] -> wf_trx (set_fh t (Some h)).
@@ -107,7 +121,8 @@ Proof.
   destruct (nth_error (w_trx w) i) as [t|] eqn:Et; [|apply nth_error_None in Et; lia].
   assert (Ht : wf_trx t) by (unfold wf_world in Hw; rewrite Forall_forall in Hw; apply Hw; eapply nth_error_In; exact Et).
   pose proof (fake_handler_ok (x_sim t) req (proj1 Ht)) as Hs'. pose proof (fake_handler_no_crash (x_sim t) req) as Hnc.
-  destruct (fake_handler (x_sim t) req) as [s' r]. cbn [fst snd] in Hs', Hnc.
+  pose proof (fake_handler_delay (x_sim t) req (proj2 (proj2 (proj2 Ht)))) as Hd'.
+  destruct (fake_handler (x_sim t) req) as [s' r]. cbn [fst snd] in Hs', Hnc, Hd'.
   assert (Hw1 : wf_world (upd_trx w i (fun t0 => set_sim t0 s'))) by (apply wf_upd_trx; [exact Hw|intros t0 H0; apply wf_set_sim; assumption]).
   assert (Hl1 : length (w_trx (upd_trx w i (fun t0 => set_sim t0 s'))) = length (w_trx w)) by (unfold upd_trx, set_trxs; cbn [w_trx]; apply upd_length).
   set (w1 := upd_trx w i (fun t0 => set_sim t0 s')) in *. clearbody w1.
@@ -154,16 +169,28 @@ Proof.
   destruct (verb_is req v_SETPOWER 1).
   { destruct (arg req 1); [|split; [exact Hw1|split; [exact Hl1|discriminate]]].
     split; [|split; [unfold upd_trx, set_trxs; cbn [w_trx]; rewrite upd_length; exact Hl1|discriminate]].
-    apply wf_upd_trx; [exact Hw1|]. intros t0 H0. apply wf_set_sim; [exact H0|]. destruct Hs' as [A [B [C [D E]]]]. apply sim_set_ok; assumption. }
+    apply wf_upd_trx; [exact Hw1|]. intros t0 H0. apply wf_set_sim; [exact H0| |cbn [sim_set s_delay]; exact Hd']. destruct Hs' as [A [B [C [D E]]]]. apply sim_set_ok; assumption. }
   destruct (verb_is req v_NOMTXPOWER 0).
   { split; [exact Hw1|split; [exact Hl1|discriminate]]. }
   destruct (verb_is req v_RFMUTE 1).
   { destruct (arg req 1); [|split; [exact Hw1|split; [exact Hl1|discriminate]]].
     split; [|split; [unfold upd_trx, set_trxs; cbn [w_trx]; rewrite upd_length; exact Hl1|discriminate]].
-    apply wf_upd_trx; [exact Hw1|]. intros t0 H0. apply wf_set_sim; [exact H0|]. destruct Hs' as [A [B [C [D E]]]]. apply sim_set_ok; assumption. }
+    apply wf_upd_trx; [exact Hw1|]. intros t0 H0. apply wf_set_sim; [exact H0| |cbn [sim_set s_delay]; exact Hd']. destruct Hs' as [A [B [C [D E]]]]. apply sim_set_ok; assumption. }
   split; [exact Hw1|split; [exact Hl1|discriminate]].
 Qed.
 
+
+(* send_response after the artificial delay: a delay held by a well-formed transceiver never overflows time.sleep(), the reply goes out *)
+Lemma send_reply w' i b : wf_world w' ->
+  match nth_error (w_trx w') i with
+  | Some t' => if sleep_overflows (s_delay (x_sim t')) then RCrashed else RReply b
+  | None => RReply b end = RReply b.
+Proof.
+  intros H1. destruct (nth_error (w_trx w') i) as [t'|] eqn:Et; [|reflexivity].
+  assert (Ht' : wf_trx t') by (unfold wf_world in H1; rewrite Forall_forall in H1; apply H1; eapply nth_error_In; exact Et).
+  destruct Ht' as [_ [_ [_ Hd]]]. unfold dl_ok in Hd. unfold sleep_overflows.
+  destruct ((0 <? s_delay (x_sim t')) && (9223372036854775807 <? s_delay (x_sim t') * 1000000)) eqn:E; [lia|reflexivity].
+Qed.
 
 (* CTRLInterface.handle_rx: no datagram (ASCII or not) crashes it, the world stays well formed *)
 Theorem handle_rx_inv w i data draws : wf_world w -> (i < length (w_trx w))%nat ->
@@ -175,5 +202,13 @@ Proof.
   destruct (negb _); [split; [exact Hw|split; [reflexivity|discriminate]]|].
   pose proof (parse_cmd_inv w i (split_sp (strip is_nul (strip is_ws (skipn 4 (firstn (Z.to_nat ctrl_recv_size) data)))) []) draws Hw Hi) as H.
   destruct (parse_cmd w i _ draws) as [[w' r] d']. destruct H as [H1 [H2 H3]].
-  destruct r; [split; [exact H1|split; [exact H2|discriminate]]|split; [exact H1|split; [exact H2|discriminate]]|congruence].
+  (* the reply is sent after the delay the command left behind: a delay a well-formed transceiver holds never overflows time.sleep() *)
+  assert (Hsend : forall b, match nth_error (w_trx w') i with
+                            | Some t' => if sleep_overflows (s_delay (x_sim t')) then RCrashed else RReply b
+                            | None => RReply b end <> RCrashed).
+  { intros b. destruct (nth_error (w_trx w') i) as [t'|] eqn:Et; [|discriminate].
+    assert (Ht' : wf_trx t') by (unfold wf_world in H1; rewrite Forall_forall in H1; apply H1; eapply nth_error_In; exact Et).
+    destruct Ht' as [_ [_ [_ Hd]]]. unfold dl_ok in Hd. unfold sleep_overflows.
+    destruct ((0 <? s_delay (x_sim t')) && (9223372036854775807 <? s_delay (x_sim t') * 1000000)) eqn:E; [lia|discriminate]. }
+  destruct r; [split; [exact H1|split; [exact H2|apply Hsend]]|split; [exact H1|split; [exact H2|apply Hsend]]|congruence].
 Qed.
